@@ -39,6 +39,9 @@ TEXTS.update({
            EXPL_NOTE + "Ordered sets of instants across breakpoints, wraps, period boundaries and the stop time; documents compared byte-wise.",
            TRUST + " Two open known findings (window-start removal and period start do not move publishTime) are excused only with their exact symptom.",
            "DESIGN.md §7 C05"),
+ "C06": _t("rapid property test; differential between the multi-period and the single-period MPD of the same instant (segment mapping, byte equality)",
+           EXPL_NOTE + "All 3600 periods-per-hour values are in the generator's domain (compatible and incompatible), instants sit on period boundaries, window edges and wraps.",
+           TRUST + " start_=0; one open known finding (KF-C06-ato-next-period).", "DESIGN.md §7 C06"),
 })
 
 _claimed = set(TEXTS)
